@@ -24,7 +24,7 @@ cb_namebl(const struct userconf *ds, const char **logmsg, enum config_domain *t)
 				NULL, NULL, NULL, NULL};
 	const char *logmess[] = {"rejected message to <", THISRCPT, "> from <", MAILFROM,
 				"> from IP [", xmitstat.remoteip, "] {listed in ", NULL, " from ",
-				blocktype[*t], " namebl}", NULL};
+				NULL, " namebl}", NULL};
 	int flagtemp = 0;	/* true at least one list failed with temporary error */
 	char *fromdomain;
 
@@ -94,6 +94,8 @@ cb_namebl(const struct userconf *ds, const char **logmsg, enum config_domain *t)
 	assert(rc != FILTER_WHITELISTED);
 	if (filter_denied(rc)) {
 		logmess[7] = a[--i];
+		/* the type is only known after the list has been loaded */
+		logmess[9] = blocktype[*t];
 		log_writen(LOG_INFO, logmess);
 		netmsg[1] = a[i];
 		if (txt) {
